@@ -211,7 +211,7 @@ class LinCombBool:
     def check_positive(self): return self.lc.check_positive()
     def assert_positive(self): self.lc.assert_positive()
     def check_zero(self): return self.lc.check_zero()
-    def assert_zero(self): self.lc.assert_zero()
+    def assert_zero(self, err=None): self.lc.assert_zero(err)
     def assert_nonzero(self): self.lc.assert_nonzero()
     
     def if_else(self, ifval, elseval):
